@@ -114,7 +114,7 @@ void h_log(void) {
   char *cache = malloc(1);
   uint64_t next0; int rc;
   __CPROVER_assume(rep != NULL && cache != NULL);
-  g_rep = rep; g_dbname[0] = 'd'; g_dbname[1] = 0; rep->dbname = g_dbname; rep->table_cache = (ldb_tables_t *)cache;
+  g_rep = rep; g_pin_buf = NULL; g_dbname[0] = 'd'; g_dbname[1] = 0; rep->dbname = g_dbname; rep->table_cache = (ldb_tables_t *)cache;
   __CPROVER_assume(g_lr_n < (1ul << 40) && g_lk < (1ul << 40));
   g_lr_base = malloc(g_lr_n + 1); __CPROVER_assume(g_lr_base != NULL);
   g_lr_pos = 0; g_lr_cur = 0; g_lr_cur_size = 0; g_set_cur = ~0ul; g_ins_k = 0; g_ins_total = 0; g_ops_total = 0;
